@@ -45,7 +45,7 @@ def suite_stage(ctx, kind):
             ctx.violation(v["mechanism"], v["detail"])
 
 
-EXH_LEN = 3
+EXH_LEN = 4
 
 
 def n_exhaustive(kind):
